@@ -77,8 +77,37 @@ pub async fn verify_consecutive_append_only<TC: Configuration>(
         y
     }));
 
+    // The tree rebuilt below silently drops or overrides nodes whose labels are equal to,
+    // or a prefix of, another node's label. Such a node set could hide part of the earlier tree
+    // (e.g. leaves inserted "under" an unchanged interior node replace its whole subtree).
+    verify_prefix_free(&unchanged_with_inserted_nodes)?;
+
     verify_append_only_hash::<TC>(unchanged_with_inserted_nodes, end_hash, Some(end_epoch - 1))
         .await?;
+    Ok(())
+}
+
+/// Checks that no label in the node set is equal to, or a prefix of, another label in the set.
+/// In the lexicographic order of the (zero-padded) labels a prefix immediately precedes
+/// one of its extensions, so comparing neighbours is sufficient.
+fn verify_prefix_free(nodes: &[AzksElement]) -> Result<(), AkdError> {
+    let mut labels = nodes
+        .iter()
+        .map(|node| node.label.get_prefix(node.label.label_len))
+        .collect::<Vec<_>>();
+    labels.sort_by(|a, b| {
+        a.label_val
+            .cmp(&b.label_val)
+            .then(a.label_len.cmp(&b.label_len))
+    });
+    for pair in labels.windows(2) {
+        if pair[0].is_prefix_of(&pair[1]) {
+            return Err(AkdError::AuditErr(AuditorError::VerifyAuditProof(format!(
+                "The proof contains overlapping nodes: {} is a prefix of (or equal to) {}",
+                pair[0], pair[1]
+            ))));
+        }
+    }
     Ok(())
 }
 
